@@ -1,6 +1,7 @@
 """An async vector pettingzoo environment"""
 
 import multiprocessing as mp
+import pickle
 import sys
 import time
 import traceback
@@ -534,7 +535,7 @@ class AsyncPettingZooVecEnv(PettingZooVecEnv):
             if i == num_errors - 1:
                 logger.error("Raising the last exception back to the main process.")
                 self._state = AsyncState.DEFAULT
-                raise exctype(value)
+                raise _rebuild_exception(exctype, value)
 
     def _assert_is_running(self) -> None:
         if self.closed:
@@ -883,6 +884,28 @@ def write_to_shared_memory(
             )
 
 
+def _survives_pickling(obj: Any) -> bool:
+    """Whether an object can be sent through a multiprocessing queue and read back."""
+    try:
+        pickle.loads(pickle.dumps(obj))
+        return True
+    except Exception:
+        return False
+
+
+def _rebuild_exception(exctype: type, value: Any) -> BaseException:
+    """Exception of type ``exctype`` to raise in the main process for an error reported by
+    a worker, also when the constructor of ``exctype`` does not take a single argument."""
+    if isinstance(value, exctype):
+        return value
+    try:
+        return exctype(value)
+    except Exception:
+        error = exctype.__new__(exctype)
+        error.args = (value,)
+        return error
+
+
 def _async_worker(
     index: int,
     env_fn: Callable[[], ParallelEnv],
@@ -1000,6 +1023,12 @@ def _async_worker(
     except (KeyboardInterrupt, Exception):
         error_type, error_message, _ = sys.exc_info()
         trace = traceback.format_exc()
+        # Whatever is put on the queue must survive pickling, otherwise the parent would
+        # wait for it forever
+        if not _survives_pickling(error_type):
+            error_type, error_message = RuntimeError, f"{error_type.__name__}: {error_message}"
+        elif not _survives_pickling(error_message):
+            error_message = str(error_message)
         error_queue.put((index, error_type, error_message, trace))
         pipe.send((None, False))
 
